@@ -215,7 +215,84 @@ fn run_history(out: &mut Out, steps: &[HStep], prop: &str, hist_id: &str) {
         if out.want_sample() && i == 2 {
             out.sample(json!({"history_prefix": hist_json[..=i], "last_result": r.result_text(), "last_pv_lines": r.pv_lines}));
         }
+        // A stopped search is followed by a search of the very node at which the stop landed
+        // (reported by the hook), no deeper than the interrupted iteration.
+        if prop == "C06" && st.stop_at > 0 && r.after_stop == 0 && r.polls >= st.stop_at {
+            let stop_fen = hk::STOP_NODE_FEN.lock().map(|s| s.clone()).unwrap_or_default();
+            if let (Ok(xs), Ok(xg)) = (fen::parse_strict(&stop_fen), eng::load(&stop_fen)) {
+                if xs.king_sq(true).is_some() && xs.king_sq(false).is_some() && !xs.in_check(!xs.white_to_move) {
+                    let xlegal: Vec<String> = xs.legal_moves().iter().map(|x| x.uci()).collect();
+                    for lim in 1..=st.limit.unwrap_or(1).min(4) {
+                        let r2 = search(out, &xg, &mut table, Some(lim), 0, 3_000_000, true);
+                        out.add("searches", 1);
+                        out.add("searches_of_the_node_a_stop_landed_on", 1);
+                        let bad = match r2.result_text() {
+                            Some(t) => !xlegal.contains(&t),
+                            None => !xlegal.is_empty() && !r2.depth_lines.is_empty(),
+                        };
+                        if bad {
+                            out.viol("C06", &format!("C06|stopnode|{rootfen}|{}", st.stop_at),
+                                &format!("the search of {rootfen} was stopped at poll {} (node {stop_fen}); the next search on the same table, of that node (limit {lim}), announced {:?} although {} moves are legal there", st.stop_at, r2.result_text(), xlegal.len()),
+                                json!({"kind":"history","id":hist_id,"failing_step":i,"steps":hist_json[..=i],"stop_node":stop_fen,"limit":lim}));
+                            break;
+                        }
+                    }
+                }
+            }
+        }
+        // The game goes on with the announced move, both sides shuffle back (b, o', b', o) and
+        // the same position is searched again on the same table, no deeper than before: the
+        // repetition filter now removes b from the root list while the table still names it.
+        if prop == "C06" && st.stop_at == 0 && completed >= 1 && (st.root.key() + i as u64) % 3 == 0 {
+            if let (Some(b), Some(o_text)) = (r.result_text(), st.root.moves.last()) {
+                if let Some(again) = shuffle_back(&st.root, &shadow, o_text, &b) {
+                    if let (Ok(g2), Some(s2)) = (again.game(), again.shadow()) {
+                        let legal2: Vec<String> = s2.legal_moves().iter().map(|m| m.uci()).collect();
+                        for lim in [st.limit.unwrap_or(2), 1] {
+                            let r2 = search(out, &g2, &mut table, Some(lim), 0, 3_000_000, true);
+                            out.add("searches", 1);
+                            out.add("searches_after_shuffling_back_to_a_searched_root", 1);
+                            let bad = match r2.result_text() {
+                                Some(t) => !legal2.contains(&t),
+                                None => !legal2.is_empty() && !r2.depth_lines.is_empty(),
+                            };
+                            if bad {
+                                out.viol("C06", &format!("C06|shuffle|{rootfen}|{b}"),
+                                    &format!("{rootfen} was searched (bestmove {b}); after the game shuffled back to it ({}) a search with limit {lim} on the same table announced {:?} although {} legal moves exist", again.moves[again.moves.len() - 4..].join(" "), r2.result_text(), legal2.len()),
+                                    json!({"kind":"history","id":hist_id,"failing_step":i,"steps":hist_json[..=i],"shuffle_root":again.json(),"limit":lim}));
+                                break;
+                            }
+                        }
+                    }
+                }
+            }
+        }
     }
+}
+
+/// `root` + [b, o', b', o]: both sides take their last moves back and repeat them (o is the move
+/// that led to `root`, b the move just announced there). None if the moves are not reversible.
+fn shuffle_back(root: &Root, shadow: &Pos, o_text: &str, b_text: &str) -> Option<Root> {
+    use chess_oracle::Kind;
+    let rev = |t: &str| format!("{}{}", &t[2..4], &t[0..2]);
+    if o_text.len() != 4 || b_text.len() != 4 {
+        return None;
+    }
+    let quiet = |p: &Pos, t: &str| -> Option<Mv> {
+        let m = p.find_uci(t)?;
+        (m.kind == Kind::Normal && o::kind(p.b[m.from as usize]) != o::PAWN && p.b[m.to as usize] == o::EMPTY).then_some(m)
+    };
+    let m1 = quiet(shadow, b_text)?;
+    let p1 = shadow.make(&m1);
+    let m2 = quiet(&p1, &rev(o_text))?;
+    let p2 = p1.make(&m2);
+    let m3 = quiet(&p2, &rev(b_text))?;
+    let p3 = p2.make(&m3);
+    let m4 = quiet(&p3, o_text)?;
+    let _ = p3.make(&m4);
+    let mut r = root.clone();
+    r.moves.extend([b_text.to_string(), rev(o_text), rev(b_text), o_text.to_string()]);
+    Some(r)
 }
 
 pub fn worker_hist(prop: &str, shard: usize, _nshards: usize, seed: u64, tier: &str, out: &mut Out) {
@@ -258,6 +335,8 @@ pub fn run_hist(prop: &str, tier: &str, seed: u64) -> (Check, Agg) {
     chk.need("repetition pattern + single legal reply", agg.c("roots_with_repetition_pattern_and_single_reply"), 3);
     if prop == "C06" {
         chk.need("searches on dead roots (followed by searches of their ancestors)", agg.c("searches_on_dead_roots"), 20);
+        chk.need("searches after the game shuffled back to a searched root", agg.c("searches_after_shuffling_back_to_a_searched_root"), 20);
+        chk.need("searches of the node a stop landed on", agg.c("searches_of_the_node_a_stop_landed_on"), 100);
     }
     if prop == "C18" {
         chk.need("pv lines replayed", agg.c("pv_lines"), 300);
@@ -270,6 +349,9 @@ pub fn replay_hist(prop: &str, case: &Value, out: &mut Out) {
     let steps: Vec<HStep> = case["steps"].as_array().map(|a| a.iter().filter_map(HStep::from_json).collect()).unwrap_or_default();
     println!("replaying a history of {} searches on one table", steps.len());
     run_history(out, &steps, prop, "replay");
+    if let Some(sr) = case.get("shuffle_root").and_then(Root::from_json) {
+        println!("(the witness involves the shuffle-back root {}; run_history re-derives it from the engine's answer)", sr.json());
+    }
 }
 
 // ------------------------------------------------------------------------------------------
@@ -337,8 +419,31 @@ fn c07_root(out: &mut Out, root: &Root, depth: u8, cap: u64, rng: &mut Rng) {
             out.add("stops_before_first_iteration_completed", 1);
         }
         judge_c07(out, root, &rootfen, &legal, depth, n, &r, total);
-        // what the interrupted search left in the table must not mislead the next searches:
-        // every position one move further is searched on the same table
+        // what the interrupted search left in the table must not mislead the next searches.
+        // (a) the very node at which the stop landed (its position is reported by the hook)
+        if r.panicked.is_none() {
+            let stop_fen = hk::STOP_NODE_FEN.lock().map(|s| s.clone()).unwrap_or_default();
+            if let (Ok(xs), Ok(xg)) = (fen::parse_strict(&stop_fen), eng::load(&stop_fen)) {
+                if xs.king_sq(true).is_some() && xs.king_sq(false).is_some() && !xs.in_check(!xs.white_to_move) {
+                    let xlegal: Vec<String> = xs.legal_moves().iter().map(|x| x.uci()).collect();
+                    for limit in 1..=depth {
+                        let r2 = search(out, &xg, &mut table, Some(limit), 0, 2_000_000, false);
+                        out.add("follow_up_searches_at_the_stop_node", 1);
+                        let bad = match r2.result_text() {
+                            Some(t) => !xlegal.contains(&t),
+                            None => !xlegal.is_empty(),
+                        };
+                        if bad || r2.panicked.is_some() {
+                            out.viol("C07", &format!("C07|stopnode|{rootfen}|{depth}|{n}"),
+                                &format!("search of {rootfen} (depth {depth}) was stopped at poll {n}, at the node {stop_fen}; the next search on the same table, of that node (limit {limit}), answered {:?} {:?} (legal there: {} moves)", r2.result_text(), r2.panicked, xlegal.len()),
+                                json!({"kind":"stop-followup","root":root.json(),"depth":depth,"stop_at":n,"stop_node":stop_fen,"limit":limit}));
+                            break;
+                        }
+                    }
+                }
+            }
+        }
+        // (b) every position one move further
         if n % 5 == 0 && r.panicked.is_none() && legal.len() <= 48 {
             for m in shadow.legal_moves() {
                 let mut child = root.clone();
@@ -456,6 +561,7 @@ pub fn run_c07(tier: &str, seed: u64) -> (Check, Agg) {
     chk.need("stops before the first iteration completed", agg.c("stops_before_first_iteration_completed"), 10);
     chk.need("roots with every stop point tried", agg.c("roots_with_every_stop_point"), 10);
     chk.need("follow-up searches on the table an interrupted search left behind", agg.c("follow_up_searches_after_a_stop"), 2000);
+    chk.need("follow-up searches of the node at which the stop landed", agg.c("follow_up_searches_at_the_stop_node"), 5000);
     (chk, agg)
 }
 
@@ -469,6 +575,18 @@ pub fn replay_c07(case: &Value, out: &mut Out) {
     let legal: Vec<String> = shadow.legal_moves().iter().map(|m| m.uci()).collect();
     let mut table = new_table();
     let r = search(out, &g, &mut table, Some(depth), n, 0, false);
+    if let Some(sf) = case["stop_node"].as_str() {
+        if let (Ok(xs), Ok(xg)) = (fen::parse_strict(sf), eng::load(sf)) {
+            let limit = case["limit"].as_u64().unwrap_or(1) as u8;
+            let xlegal: Vec<String> = xs.legal_moves().iter().map(|x| x.uci()).collect();
+            let r2 = search(out, &xg, &mut table, Some(limit), 0, 2_000_000, false);
+            println!("after the stop at poll {n} (node {sf}): search of that node (limit {limit}) answered {:?}; legal: {xlegal:?}", r2.result_text());
+            let bad = match r2.result_text() { Some(t) => !xlegal.contains(&t), None => !xlegal.is_empty() };
+            if bad {
+                out.viol("C07", "replay", "follow-up search of the stop node answered an illegal move", case.clone());
+            }
+        }
+    }
     if let Some(cm) = case["child_move"].as_str() {
         let mut child = root.clone();
         child.moves.push(cm.to_string());
@@ -501,6 +619,10 @@ const TINY: &[&str] = &[
     "4k3/4p3/8/8/8/8/4P3/4K3 w - - 0 1",
     "8/8/8/8/8/2k5/8/K7 b - - 0 1",
     "7k/8/8/8/8/8/8/K6N w - - 0 1",
+    "8/8/4k3/8/8/4K3/8/8 w - - 0 1",
+    "8/8/8/3k4/8/3K4/8/8 b - - 0 1",
+    "k1p5/p1p5/P1P5/8/7p/p1p5/P1P4P/K1P5 w - - 0 1",
+    "8/8/8/4p3/4P3/8/4K3/4k3 w - - 0 1",
 ];
 
 fn c08_judge(out: &mut Out, r: &Sr, limit: Option<u8>, what: &str, sig: &str, case: Value) {
@@ -587,7 +709,7 @@ pub fn worker_c08(shard: usize, _nshards: usize, seed: u64, tier: &str, out: &mu
     }
     // (b) tiny positions: sampled limits up to 255 and unlimited runs
     for (i, f) in TINY.iter().enumerate() {
-        if i % 16 != shard % 16 && !(tier == "thorough" && (i + 5) % 16 == shard % 16) {
+        if i % 14 != shard % 14 && !(tier == "thorough" && (i + 5) % 14 == shard % 14) {
             continue;
         }
         let root = Root { fen: f.to_string(), moves: vec![] };
@@ -828,6 +950,9 @@ fn c09_case(out: &mut Out, root: &Root, depth: u8, prefill: bool, rng: &mut Rng,
     let Ok(g) = root.game() else { return };
     let Some(shadow) = root.shadow() else { return };
     out.add("cases_generated", 1);
+    if root.moves.len() >= 370 {
+        out.add("cases_with_a_game_record_near_the_length_limit", 1);
+    }
     let Some((want, moveless, nodes)) = reference_root(&g, depth, budget) else {
         out.add("skipped_single_reply_root", 1);
         return;
@@ -934,6 +1059,7 @@ pub fn run_c09(tier: &str, seed: u64) -> i32 {
     chk.need("judged with pre-filled history", agg.c("judged_with_prefilled_history"), 100);
     chk.need("judged at depth 3", agg.c("judged_depth_3"), 50);
     chk.need("judged at depth 4", agg.c("judged_depth_4"), 20);
+    chk.need("cases with a game record near the length limit", agg.c("cases_with_a_game_record_near_the_length_limit"), 20);
     finalize(chk, &agg)
 }
 
